@@ -6,7 +6,9 @@ use vwf::Fut;
 use winter_crypto::hashers::{Blake3_192, Blake3_256, Rp62_248, Rp64_256, RpJive64_256, Sha3_256};
 use winter_crypto::ElementHasher;
 use winter_math::fields::{f128, f62, f64 as f64m, CubeExtension, QuadExtension};
-use winter_math::FieldElement;
+use winter_fri::folding::apply_drp;
+use winter_math::{fft, FieldElement, StarkField};
+use winter_utils::transpose_slice;
 
 use crate::fri_attacks::{attacks, uniform, Attack};
 use crate::frih::{self, Geo, Pos, Run, Verdict};
@@ -45,6 +47,99 @@ where
         },
         Ok(Verdict::Accept) => rep.violation(&format!("accepted|{}", a.kind), json!({"ctx": ctx, "detail": a.detail})),
         Err(p) => rep.violation(&format!("{}|{}", p.sig(), a.kind), json!({"ctx": ctx, "detail": a.detail})),
+    }
+}
+
+
+/// the last-layer evaluations an honest commit phase reaches from `evals` with these alphas (the
+/// adversary's own folding; same routine and offset convention as the prover)
+fn fold_all<E: FieldElement>(geo: &Geo, evals: &[E], alphas: &[E]) -> Vec<E> {
+    let off = <E::BaseField as StarkField>::GENERATOR;
+    let mut v = evals.to_vec();
+    for a in alphas.iter().take(geo.num_layers()) {
+        v = match geo.folding {
+            2 => apply_drp::<_, _, 2>(&transpose_slice::<_, 2>(&v), off, *a),
+            4 => apply_drp::<_, _, 4>(&transpose_slice::<_, 4>(&v), off, *a),
+            8 => apply_drp::<_, _, 8>(&transpose_slice::<_, 8>(&v), off, *a),
+            _ => apply_drp::<_, _, 16>(&transpose_slice::<_, 16>(&v), off, *a),
+        };
+    }
+    v
+}
+
+/// (e) a prover that does not truncate: polynomial of degree in (bound, 2*bound + 1], honest layer
+/// commitments, and as remainder the *full* interpolant of the last layer (more coefficients than
+/// the bound allows) with its own commitment. Every check except the remainder degree check
+/// passes; where the geometry allows it this is validated by verifying the same proof under the
+/// geometry (2d, blowup/2), which has the same domain and must accept.
+fn overlong_remainder<E, H>(rep: &mut Report, rng: &mut Rng, ctx: &Value, geo: &Geo, pos: &Pos)
+where
+    E: Fut + FieldElement,
+    H: ElementHasher<BaseField = <E as FieldElement>::BaseField>,
+{
+    let (d, dom) = (geo.d, geo.domain());
+    if geo.blowup < 4 || 2 * d > dom {
+        rep.count("overlong-remainder:not-applicable(blowup<4)");
+        return;
+    }
+    let f_all = geo.folding.pow(geo.num_layers() as u32);
+    let last_dom = dom / f_all;
+    // the channel only takes power-of-two remainder lengths: the adversary sends 2 * rem_len
+    // coefficients (zero-padded at the high end when the degree needs fewer)
+    let rem_len = geo.rem_len();
+    let want = 2 * rem_len;
+    if want > last_dom {
+        return;
+    }
+    let deg = match rng.usize(4) {
+        0 => d,
+        1 => 2 * d - 1,
+        _ => d + rng.usize(d),
+    };
+    let coeffs: Vec<E> = (0..=deg).map(|_| uniform::<E>(rng)).collect();
+    if coeffs[deg] == E::ZERO {
+        return;
+    }
+    let evals = frih::evaluate(&coeffs, dom);
+    let run = match frih::prove::<E, H>(geo, evals.clone(), pos) {
+        Ok(r) => r,
+        Err(p) => {
+            rep.count(&format!("prover_refused_non_low_degree:{}", p.masked()));
+            return;
+        },
+    };
+    let alphas: Vec<E> = frih::replay_alphas::<E, H>(&run.commitments);
+    let mut last = fold_all(geo, &evals, &alphas);
+    let inv = fft::get_inv_twiddles::<<E as FieldElement>::BaseField>(last.len());
+    fft::interpolate_poly_with_offset(&mut last, &inv, <<E as FieldElement>::BaseField as StarkField>::GENERATOR);
+    if last[want..].iter().any(|c| *c != E::ZERO) {
+        rep.inconclusive("overlong-remainder: adversary's folding left higher coefficients (harness)", ctx.clone());
+        return;
+    }
+    let rem: Vec<E> = last[..want].iter().rev().copied().collect();
+    let bytes = frih::with_remainder(&run.proof_bytes, &rem);
+    let mut cs = run.commitments.clone();
+    *cs.last_mut().unwrap() = H::hash_elements(&rem);
+    let queried: Vec<E> = run.positions.iter().map(|&p| evals[p]).collect();
+    let detail = json!({"ctx": ctx, "degree": deg, "bound": d - 1, "remainder_coefficients_sent": want, "allowed": rem_len});
+    // validation under the geometry with twice the bound
+    let g2 = Geo { d: 2 * d, blowup: geo.blowup / 2, folding: geo.folding, rem: geo.rem };
+    if g2.num_layers() == geo.num_layers() && g2.realisable() {
+        match frih::verify_bytes::<E, H>(&g2, &bytes, &cs, &queried, &run.positions, 2 * d - 1) {
+            Ok(Verdict::Accept) => rep.count("validated_under_doubled_bound:overlong-remainder"),
+            other => {
+                rep.inconclusive("attack-not-consistent-with-other-checks|overlong-remainder", json!({"detail": detail, "under_doubled_bound": format!("{other:?}").chars().take(120).collect::<String>()}));
+                return;
+            },
+        }
+    } else {
+        rep.count("overlong-remainder:unvalidated(aligned geometry)");
+    }
+    rep.evals(1);
+    match frih::verify_bytes::<E, H>(geo, &bytes, &cs, &queried, &run.positions, d - 1) {
+        Ok(Verdict::Reject(e)) => rep.count(&format!("rejected:overlong-remainder:{}", e.split(|c: char| c == '(' || c.is_ascii_digit()).next().unwrap_or("?"))),
+        Ok(Verdict::Accept) => rep.violation("accepted|overlong-remainder", detail),
+        Err(p) => rep.violation(&format!("{}|overlong-remainder", p.sig()), detail),
     }
 }
 
@@ -146,6 +241,8 @@ where
         }
     }
 
+    overlong_remainder::<E, H>(rep, rng, &ctx, &geo, &pos);
+
     // ---- (a) data that is not low degree, pushed through the honest prover
     let (class, evals): (&str, Vec<E>) = match rng.usize(3) {
         0 => ("random-function", (0..dom).map(|_| uniform::<E>(rng)).collect()),
@@ -179,7 +276,7 @@ where
 
 pub fn run(args: &Args) {
     let mut rep = Report::new("C09", "c09",
-        "per case one random realisable FRI geometry x 12 field/extension/hasher instantiations x 1..255 drawn queries: (a) random functions and polynomials of degree bound+1..4*bound+3 with uniform coefficients through the honest prover must be rejected; (b) every understated bound in {bound-1, bound-8, bound/2, (bound+1)/2-1, (bound+1)/folding-1, 1, 0, bound - j*folding^layers for j = 1..3 (same domain, no truncation)} must be rejected; (c) substitutions into honest proofs at every layer: value changed, rows swapped, row crafted to keep its fold at alpha (validated: accepted when only the layer commitment check is skipped), remainder coefficient changed, remainder crafted to agree on all queried points, remainder with leading zeros trimmed (validated likewise); (d) changed / swapped / dropped / extra commitments, changed claimed evaluation; evaluation = one verification of forged data; distinct = (instantiation, geometry, queries)");
+        "per case one random realisable FRI geometry x 12 field/extension/hasher instantiations x 1..255 drawn queries: (a) random functions and polynomials of degree bound+1..4*bound+3 with uniform coefficients through the honest prover must be rejected; (b) every understated bound in {bound-1, bound-8, bound/2, (bound+1)/2-1, (bound+1)/folding-1, 1, 0, bound - j*folding^layers for j = 1..3 (same domain, no truncation)} must be rejected; (c) substitutions into honest proofs at every layer: value changed, rows swapped, row crafted to keep its fold at alpha (validated: accepted when only the layer commitment check is skipped), remainder coefficient changed, remainder crafted to agree on all queried points, remainder with leading zeros trimmed (validated likewise); (d) changed / swapped / dropped / extra commitments, changed claimed evaluation; (e) a non-truncating prover: degree in (bound, 2*bound+1], honest layers, full last-layer interpolant as remainder with its own commitment (validated: accepted under the geometry with twice the bound on the same domain); evaluation = one verification of forged data; distinct = (instantiation, geometry, queries)");
     let seed = args.seed();
     let max_log_d = args.u64("maxlogd", if args.thorough() { 12 } else { 9 }) as u32;
     let mut w = Worker::new(args, 500);
